@@ -278,3 +278,23 @@ Definition go_scan (s : go_scanner) : bool * go_scanner :=
   end.
 
 Definition go_scan_err (s : go_scanner) : Z := if sc_done s then sc_err s else 0%Z.
+
+(* ReadString(delim) of a bufio.Reader: up to and including the first delim; if the input ends
+   first, what is left together with the stream's error *)
+Fixpoint take_line (d : N) (s : list N) : list N * option (list N) :=
+  match s with
+  | [] => ([], None)
+  | c :: r =>
+    if N.eqb c d then ([c], Some r)
+    else let '(l, o) := take_line d r in (c :: l, o)
+  end.
+
+Definition go_readstring (s : go_stream) (d : N) : list N * Z * go_stream :=
+  match take_line d (st_rest s) with
+  | (l, Some r) => (l, 0%Z, Stream r (st_term s) None)
+  | (l, None) => (l, st_term s, Stream [] (st_term s) None)
+  end.
+
+(* strings.TrimSuffix *)
+Definition go_trim_suffix (s suf : list N) : list N :=
+  if is_prefix (rev suf) (rev s) then rev (skipn (length suf) (rev s)) else s.
